@@ -9,7 +9,7 @@ def _t(k):
     return k / GRID      # exact in binary floating point
 
 
-PATTERNS = ["perturbed", "random", "identical", "nested", "disjoint", "samelabel", "intgrid", "staircase"]
+PATTERNS = ["perturbed", "random", "identical", "nested", "disjoint", "samelabel", "intgrid", "staircase", "farapart"]
 LABEL_SETS = {
     "abc": ["A", "B", "C"],
     "words": ["cat", "cart", "dog", "do", "zebra"],
@@ -112,6 +112,24 @@ def gen_units(rng, n, sizes, pattern, labels, unlabelled=False, span=40):
                 p0 = rng.randrange(0, 7)
                 us.add((p0 * GRID, (p0 + 1) * GRID, lab()))
                 tries += 1
+            units.append(us)
+    elif pattern == "farapart":
+        # gadgets of mutually DISTANT units (pairwise positional dissimilarity between 1 and 3 delta_empty: a short unit, a short unit 1.5 lengths
+        # later, a long unit far to the right): grouping them still beats leaving them alone, so the optimum contains tuples whose pair sum is
+        # a large fraction of the cut - candidates a tighter-than-documented cut would drop
+        for a in range(n):
+            us = set()
+            for i in range(sizes[a]):
+                base = i * 1024 * GRID
+                kind = (a + i) % 3
+                if kind == 0:
+                    us.add((base, base + GRID, lab()))
+                elif kind == 1:
+                    dy = rng.randrange(-2 * GRID, 2 * GRID + 1)
+                    us.add((base + 10 * GRID + dy, base + 40 * GRID + dy, lab()))
+                else:
+                    dx = rng.randrange(-GRID // 4, GRID // 4 + 1)
+                    us.add((base + (3 * GRID) // 2 + dx, base + (5 * GRID) // 2 + dx, lab()))
             units.append(us)
     else:
         raise ValueError(pattern)
